@@ -4,8 +4,8 @@ H = "src/stabilize/handlers/"
 CASES = []
 
 
-def case(cid, prop, kind, edits, expect_rule=None):
-    CASES.append({"id": cid, "property": prop, "kind": kind, "edits": edits, "expect_rule": expect_rule})
+def case(cid, prop, kind, edits, expect_rule=None, patch=None):
+    CASES.append({"id": cid, "property": prop, "kind": kind, "edits": edits, "expect_rule": expect_rule, "patch": patch})
 
 
 # ------------------------------------------------------------------ C01
@@ -558,3 +558,10 @@ case("c15-jump-stage-by-stage", "C15", "mutant", [(H + "jump_to_stage/handler.py
                     self.repository.store_stage(fresh)""")], "C15.R4")
 case("c15-join-fired-not-cleared", "C15", "mutant", [(H + "jump_to_stage/reset.py", """    for key in ("_join_fired", "_completed_branches", "_activated_branches"):""", """    for key in ("_completed_branches", "_activated_branches"):""")], "C15.R6")
 case("c15-default-max-jumps", "C15", "mutant", [(H + "jump_to_stage/handler.py", "DEFAULT_MAX_JUMPS = 10", "DEFAULT_MAX_JUMPS = 10_000")], "C15.R2")
+
+# a CORRECT bounded retry loop in poll_one (the seeded c08-2 change plus the missing `else: return None`) must stay silent
+case("c08-refactor-retry-loop-with-else", "C08", "refactor", [("src/stabilize/queue/sqlite/queue.py", """            logger.debug("Lost race for message %s, retrying", msg_id)
+""", """            logger.debug("Lost race for message %s, retrying", msg_id)
+        else:
+            return None
+""")], None, patch="seeded/c08-2/patch.diff")
